@@ -60,11 +60,24 @@ package sm2
 //@ ensures err: result0 ==> !nonnil(result1)
 //@ assigns nothing
 
-// ensure32Bytes: left-pads the minimal encoding to 32 bytes.  The value clause rests on
-// the fact that leading zero bytes do not change a big-endian value (trusted lemma L7).
+// ensure32Bytes: left-pads the minimal encoding to 32 bytes; the value is unchanged
+// (proved by the leftpad rule: complete case split on the length of the minimal encoding).
 //@ func sm2.ensure32Bytes
 //@ mode int
 //@ requires range: 0 <= *i && *i < pow2(256)
 //@ ensures len: len(result) == 32 && cap(result) == 32
-//@ trusted_ensures val: be(result) == *i
+//@ after copy(buf[32-len(bytes):], bytes) :: leftpad(buf[0:32], bytes)
+//@ ensures val: be(result) == *i
+//@ assigns nothing
+
+// ---- identity hash ZA and the id-/message-level entry points (C13) ----
+//@ global_fact zBytes: len(zBytes) == 128
+//@ define hs2(h, a, b) = hs_app(hs_app(h, a, len(a)), b, len(b))
+//@ define za_stream(id, px, py) = hs2(hs_app(hs_app(hs_app(hs_empty(), bytes(((len(id) * 8) / 256) % 256, (len(id) * 8) % 256), 2), id, len(id)), zBytes, len(zBytes)), px, py)
+//@ define bedigest(h) = digestbyte(h,0)*pow2(248) + digestbyte(h,1)*pow2(240) + digestbyte(h,2)*pow2(232) + digestbyte(h,3)*pow2(224) + digestbyte(h,4)*pow2(216) + digestbyte(h,5)*pow2(208) + digestbyte(h,6)*pow2(200) + digestbyte(h,7)*pow2(192) + digestbyte(h,8)*pow2(184) + digestbyte(h,9)*pow2(176) + digestbyte(h,10)*pow2(168) + digestbyte(h,11)*pow2(160) + digestbyte(h,12)*pow2(152) + digestbyte(h,13)*pow2(144) + digestbyte(h,14)*pow2(136) + digestbyte(h,15)*pow2(128) + digestbyte(h,16)*pow2(120) + digestbyte(h,17)*pow2(112) + digestbyte(h,18)*pow2(104) + digestbyte(h,19)*pow2(96) + digestbyte(h,20)*pow2(88) + digestbyte(h,21)*pow2(80) + digestbyte(h,22)*pow2(72) + digestbyte(h,23)*pow2(64) + digestbyte(h,24)*pow2(56) + digestbyte(h,25)*pow2(48) + digestbyte(h,26)*pow2(40) + digestbyte(h,27)*pow2(32) + digestbyte(h,28)*pow2(24) + digestbyte(h,29)*pow2(16) + digestbyte(h,30)*pow2(8) + digestbyte(h,31)
+
+//@ func sm2.ZA
+//@ mode int
+//@ ensures toolong: len(id) >= 8192 ==> nonnil(err) && za == nil
+//@ ensures ok: len(id) < 8192 ==> !nonnil(err) && len(za) == 32 && forall(i, 0, 32, za[i] == digestbyte(za_stream(id, pubx, puby), i))
 //@ assigns nothing
